@@ -401,8 +401,9 @@ theorem freq_absent (useW : Bool) (ts : List TreeRec) (s : Int) (h : ∀ t ∈ t
   have : ¬ ∃ t ∈ ts, s ∈ t.splits := by rintro ⟨t, ht, hs⟩; exact h t ht hs
   simp [this]
 
-/-- the frequency of a split is the weighted fraction of trees containing it: total weight of its occurrences over the
-    sum of the tree weights (over the number of trees when that sum is zero) -/
+/-- the frequency of a split is the total weight of its OCCURRENCES (a record that repeats a split counts it per occurrence)
+    over the sum of the tree weights (over the number of trees when that sum is zero); it is the weighted fraction of the trees
+    CONTAINING the split exactly when no record repeats a split — `freq_weighted_contains` -/
 theorem freq_spec (useW : Bool) (ts : List TreeRec) (s : Int) (h : ∃ t ∈ ts, s ∈ t.splits) :
     freq (countAll useW ts) s
       = wsum useW ts s / (if (ts.map (wt useW)).sum = 0 then (ts.length : Rat) else (ts.map (wt useW)).sum) := by
@@ -1449,7 +1450,8 @@ theorem treeRecOf_rooted_clades (w : Option Rat) (t : T) :
   rw [hs, ← C01.Aux.sup_toH, C01.Aux.toH_clades]
   simp
 
-/-- **Collapse removes exactly the weak internal edges.**  When `collapseBelow` answers (no leaf edge is flagged), the
+/-- **Collapse removes exactly the weak internal edges** (hypotheses not derived here: the call answers, i.e. no leaf edge is
+    flagged; and, for the last conjunct, distinct node ids — true of `parseTree` output by construction but not proved).  When `collapseBelow` answers (no leaf edge is flagged), the
     internal non-root nodes of the result are — same ids, same leaf sets, same order — those internal non-root nodes of the
     encoded target that are not flagged; every root-to-tip distance is kept (given well-formed lengths); and with distinct
     node ids "flagged" means precisely that the node's split frequency is below the threshold. -/
@@ -1490,7 +1492,9 @@ theorem collapse_removes_exactly (sd : SD) (mf : Rat) (r : Option Bool) (t t' : 
       rw [this] at hlt; exact hlt
     · intro hlt; exact ⟨nd, ⟨hndm', hlt⟩, rfl⟩
 
-/-- **Summaries of one split's values.**  For a non-empty value list: `mean · n = Σ`; minimum, maximum and median are read
+/-- **Summaries of one split's values** (which list that is: `lengths_spec`).  The `.n` conjunct is definitional and the median
+    conjunct re-reads the definition on the sorted witness; the content is that the witness is an ascending permutation, the
+    bounds, the mean and the variance.  For a non-empty value list: `mean · n = Σ`; minimum, maximum and median are read
     off an ascending permutation of the values (so `lo ≤ x ≤ hi` for every value and both are values); and for `n ≥ 2` the
     reported variance is the sample variance `Σ (x − mean)² / (n − 1)`. -/
 theorem stats_spec (l : List Rat) (hl : l ≠ []) :
@@ -2032,7 +2036,9 @@ end DendroModel.C05.Aux
 namespace DendroModel.C05
 open DendroModel DendroModel.Hier DendroModel.C05.Aux
 
-/-- **The caches are never stale.**  Over EVERY history of tree additions, frequency queries and summary queries on one
+/-- **The caches are never stale.**  (Alphabet of the histories: tree additions, frequency queries, length-summary queries and
+    reads of the age-summary table, whose content is modelled only as present/absent.  Merges through `SplitDistribution.update`
+    are NOT events of this model; they are covered by the oracle's `merge` op only.)  Over every such history on one
     distribution (starting empty), each answer obtained through the cached tables (`_get_split_frequencies`,
     `_get_split_edge_length_summaries` with their recalculate-iff tests) equals the answer computed afresh from all the trees
     counted so far: `freq` of the current counts, resp. the statistics of the current value list. -/
@@ -2075,7 +2081,7 @@ theorem score_spec (sd : SD) (incl : Bool) (t : TreeRec) :
   unfold prodSupport
   rw [foldl_prod_nonzero]; ring
 
-/-- **Maximum credibility.**  For a non-empty collection the index the driver reports (`mccSum`, resp. `mccProd`) is a
+/-- **Maximum credibility** (about record indices; that the tree handed back has that record's topology is oracle-only).  For a non-empty collection the index the driver reports (`mccSum`, resp. `mccProd`) is a
     valid tree index, its score — Σ resp. Π of the frequencies of that tree's scored splits, `score_spec` — is at least
     every tree's score, and it is the first such index. -/
 theorem mcc_index_spec (sd : SD) (incl : Bool) (ts : List TreeRec) (hne : ts ≠ []) :
@@ -2522,4 +2528,332 @@ example : (some false : Option Bool) ≠ some true
     ∧ Good (T.toH (T.node 0 none none none [.node 1 (some 0) none none [], .node 2 (some 1) none none [],
         .node 3 none none none [.node 4 (some 2) none none [], .node 5 (some 3) none none []]])) := by
   refine ⟨by simp, by simp [T.cs], by simp [T.toH, T.toHL, Good, GoodL, Hier.mask, Hier.maskL]⟩
+end DendroModel.C05
+
+/-! ## final round (audit 2-L): value lists, removed namespace members, end-to-end composition, weighted "contains" form -/
+namespace DendroModel.C05.Aux
+open DendroModel DendroModel.Hier DendroModel.C05
+
+/-- the values one tree record contributes to split `s`: the lengths paired with the occurrences of `s`, in order -/
+def valsOf (s : Int) (t : TreeRec) : List Rat :=
+  (t.splits.zip t.lens).filterMap (fun p => if p.1 = s then some p.2 else none)
+
+theorem lookup_addLenRec (d : List (Int × List Rat)) (k : Int) (x : Rat) (s : Int) :
+    lookupIn (addLenRec d k x) s = if s = k then some ((lookupIn d s).getD [] ++ [x]) else lookupIn d s := by
+  induction d with
+  | nil =>
+    by_cases h : s = k
+    · subst h; simp [addLenRec, lookupIn]
+    · have : ¬ k = s := fun e => h e.symm
+      simp [addLenRec, lookupIn, h, this]
+  | cons q rest ih =>
+    simp only [addLenRec]
+    by_cases hq : q.1 = k
+    · simp only [hq, beq_self_eq_true, if_true]
+      by_cases h : s = k
+      · subst h; simp [lookupIn, hq]
+      · have : ¬ k = s := fun e => h e.symm
+        simp [lookupIn, h, hq, this]
+    · have hq' : (q.1 == k) = false := by simpa using hq
+      simp only [hq', Bool.false_eq_true, if_false]
+      by_cases hqs : q.1 = s
+      · have hsk : ¬ s = k := fun e => hq (hqs.trans e)
+        simp [lookupIn, hqs, hsk]
+      · have e1 : lookupIn ((q.1, q.2) :: addLenRec rest k x) s = lookupIn (addLenRec rest k x) s := by
+          simp [lookupIn, hqs]
+        have e2 : lookupIn (q :: rest) s = lookupIn rest s := by
+          simp [lookupIn, hqs]
+        rw [e1, e2]; exact ih
+
+theorem lookup_fold_lens (s : Int) : ∀ (ps : List (Int × Rat)) (d : List (Int × List Rat)),
+    lookupIn (ps.foldl (fun d p => addLenRec d p.1 p.2) d) s
+      = if ps.filterMap (fun p => if p.1 = s then some p.2 else none) = [] then lookupIn d s
+        else some ((lookupIn d s).getD [] ++ ps.filterMap (fun p => if p.1 = s then some p.2 else none)) := by
+  intro ps
+  induction ps with
+  | nil => intro d; simp
+  | cons p ps ih =>
+    intro d
+    obtain ⟨a, b⟩ := p
+    rw [List.foldl_cons, ih (addLenRec d a b), lookup_addLenRec, List.filterMap_cons]
+    by_cases hp : a = s
+    · subst hp
+      simp only [if_true]
+      split
+      · rename_i h; simp [h]
+      · simp
+    · have hp' : ¬ s = a := fun e => hp e.symm
+      simp only [hp, hp', if_false]
+
+theorem lengths_gen (s : Int) : ∀ (ts : List TreeRec) (sd : SD),
+    lookupIn (ts.foldl countTree sd).lengths s
+      = if ts.flatMap (valsOf s) = [] then lookupIn sd.lengths s
+        else some ((lookupIn sd.lengths s).getD [] ++ ts.flatMap (valsOf s)) := by
+  intro ts
+  induction ts with
+  | nil => intro sd; simp
+  | cons t rest ih =>
+    intro sd
+    rw [List.foldl_cons, ih]
+    have hc : lookupIn (countTree sd t).lengths s
+        = if valsOf s t = [] then lookupIn sd.lengths s else some ((lookupIn sd.lengths s).getD [] ++ valsOf s t) := by
+      simp only [countTree]; exact lookup_fold_lens s _ _
+    rw [hc, List.flatMap_cons]
+    by_cases h1 : valsOf s t = [] <;> by_cases h2 : rest.flatMap (valsOf s) = []
+    · simp [h1, h2]
+    · simp [h1, h2]
+    · simp [h1, h2]
+    · simp [h1, h2]
+
+end DendroModel.C05.Aux
+
+namespace DendroModel.C05
+open DendroModel DendroModel.Hier DendroModel.C05.Aux
+
+/-- **The value list summarised for a split is exactly that split's values over the input trees.**  After counting `ts`, the
+    entry of `split_edge_lengths` for `s` holds, tree by tree in the order counted, the lengths paired with the occurrences of
+    `s` in each record (`valsOf`), and there is no entry when no tree contributes — so `stats_spec`, applied to this list, is a
+    statement about the trees, and `summaryTable` summarises exactly these lists. -/
+theorem lengths_spec (useW : Bool) (ts : List TreeRec) (s : Int) :
+    lookupIn (countAll useW ts).lengths s
+      = if ts.flatMap (valsOf s) = [] then none else some (ts.flatMap (valsOf s)) := by
+  unfold countAll
+  rw [lengths_gen]
+  simp [lookupIn]
+
+/-- on a record whose splits are distinct and all carry a length, the split `s` contributes exactly one value iff the record has it -/
+theorem valsOf_nodup (s : Int) (t : TreeRec) (hnd : t.splits.Nodup) (hlen : t.lens.length = t.splits.length) :
+    (valsOf s t).length = if s ∈ t.splits then 1 else 0 := by
+  unfold valsOf
+  have key : ∀ (ss : List Int) (ls : List Rat), ss.Nodup → ls.length = ss.length →
+      ((ss.zip ls).filterMap (fun p => if p.1 = s then some p.2 else none)).length = if s ∈ ss then 1 else 0 := by
+    intro ss
+    induction ss with
+    | nil => intro ls _ _; simp
+    | cons a ss ih =>
+      intro ls hnd hl
+      cases ls with
+      | nil => simp at hl
+      | cons b ls =>
+        have hnd' := List.nodup_cons.mp hnd
+        have := ih ls hnd'.2 (by simpa using hl)
+        simp only [List.zip_cons_cons, List.filterMap_cons]
+        by_cases ha : a = s
+        · subst ha
+          simp [this, hnd'.1]
+        · have ha' : ¬ s = a := fun e => ha e.symm
+          simp [ha, ha', this]
+  exact key t.splits t.lens hnd hlen
+
+example : lookupIn (countAll false [exRec]).lengths 6 = none := by
+  rw [lengths_spec]; simp [valsOf, exRec]
+
+end DendroModel.C05
+namespace DendroModel.C05
+open DendroModel DendroModel.Hier DendroModel.C05.Aux
+
+/-- **Frequency = weighted fraction of the trees CONTAINING the split** (the statement's wording): when no record repeats a
+    split, the frequency is the total weight of the trees that contain `s` over the sum of all tree weights (over the number of
+    trees when that sum is zero).  `freq_spec` is the form without the `Nodup` hypothesis, in which a repeated split counts per
+    occurrence — the behaviour on the known-finding class (basal bifurcation surviving the encoding). -/
+theorem freq_weighted_contains (useW : Bool) (ts : List TreeRec) (s : Int) (hnd : ∀ t ∈ ts, t.splits.Nodup)
+    (h : ∃ t ∈ ts, s ∈ t.splits) :
+    freq (countAll useW ts) s
+      = ((ts.filter (fun t => decide (s ∈ t.splits))).map (wt useW)).sum
+          / (if (ts.map (wt useW)).sum = 0 then (ts.length : Rat) else (ts.map (wt useW)).sum) := by
+  rw [freq_spec useW ts s h]
+  congr 1
+  have key : ∀ l : List TreeRec, (∀ t ∈ l, t.splits.Nodup) →
+      wsum useW l s = ((l.filter (fun t => decide (s ∈ t.splits))).map (wt useW)).sum := by
+    intro l
+    induction l with
+    | nil => intro _; simp [wsum]
+    | cons t rest ih =>
+      intro hnd'
+      have ih' := ih (fun t' ht' => hnd' t' (List.mem_cons_of_mem _ ht'))
+      have hn := hnd' t (by simp)
+      have e : wsum useW (t :: rest) s = wt useW t * (t.splits.count s : Rat) + wsum useW rest s := by simp [wsum]
+      rw [e, ih', List.filter_cons]
+      by_cases hs : s ∈ t.splits
+      · simp [hs, List.count_eq_one_of_mem hn hs]
+      · simp [hs, List.count_eq_zero_of_not_mem hs]
+  exact key ts hnd
+
+example : (∀ t ∈ [exRec, exRec], t.splits.Nodup) ∧ ∃ t ∈ [exRec, exRec], (6 : Int) ∈ t.splits := by
+  refine ⟨?_, exRec, by simp, by simp [exRec]⟩
+  intro t ht; simp at ht; subst ht; exact exRec_hts.1
+
+/-- non-vacuity of `consensus_greedy_by_frequency` on a `countAll` value (not a hand-written table): the clade 6 of (0,(1,2))
+    is a candidate of the counted sample at some position, and `prep` keeps it -/
+example : ∃ pre c post s, candidates (countAll false [exRec]) none = pre ++ c :: post ∧ C01.prep 7 true c.toNat = some s := by
+  have hc : (6 : Int) ∈ candidates (countAll false [exRec]) none :=
+    (mem_candidates _ _ _).mpr ⟨(counted_iff false [exRec] 6).mpr ⟨exRec, by simp, by simp [exRec]⟩, trivial⟩
+  obtain ⟨pre, post, he⟩ := List.append_of_mem hc
+  exact ⟨pre, 6, post, 6, he, by decide⟩
+
+/-- `lengths_spec` on a record with lengths: two copies of a tree whose clade 6 has length 2 -/
+example : lookupIn (countAll false [{ exRec with lens := [1, 1, 1, 2, 0] }, { exRec with lens := [1, 1, 1, 2, 0] }]).lengths 6
+    = some [2, 2] := by
+  rw [lengths_spec]; simp [valsOf, exRec]
+
+end DendroModel.C05
+
+namespace DendroModel.C05
+open DendroModel DendroModel.Hier DendroModel.C05.Aux
+
+/-- **Majority rule on a namespace with removed members.**  `majority_consensus_reaches` with `all` only required to CONTAIN the
+    star's leaf set (the driver passes `all = (1 <<< accession count) - 1`, which keeps the bits of removed members): the trees'
+    root split then differs from `all`, passes `prep`, and is found already present by the greedy insertion. -/
+theorem majority_consensus_reaches_ns (useW : Bool) (ts : List TreeRec) (m : Rat) (all : Nat) (members : List Nat)
+    (hm : 1 / 2 < m) (hw : ∀ t ∈ ts, 0 ≤ wt useW t) (hg : Good (starOf members)) (hsubAll : bits (Hier.mask (starOf members)) ⊆ bits all)
+    (hts : ∀ t ∈ ts, t.splits.Nodup ∧ ∃ h : Hier.T, Good h ∧ Hier.mask h = Hier.mask (starOf members) ∧
+              ∀ x : Nat, (x : Int) ∈ t.splits ↔ x ∈ clades h) :
+    Good (consensus (countAll useW ts) (some m) all members true)
+    ∧ Hier.mask (consensus (countAll useW ts) (some m) all members true) = Hier.mask (starOf members)
+    ∧ ∀ x, x ∈ clades (consensus (countAll useW ts) (some m) all members true)
+        ↔ x ∈ clades (starOf members)
+          ∨ (reaches m (freq (countAll useW ts) (x : Int)) ∧ ∃ t ∈ ts, (x : Int) ∈ t.splits) := by
+  -- every candidate that is a natural number is a clade of an input tree, inside `all`, and carried by a majority
+  have hcand : ∀ n : Nat, (n : Int) ∈ candidates (countAll useW ts) (some m) →
+      (∃ t ∈ ts, (n : Int) ∈ t.splits) ∧ reaches m (freq (countAll useW ts) (n : Int)) ∧ n &&& all = n ∧ n &&& Hier.mask (starOf members) = n
+        ∧ (ts.map (wt useW)).sum < 2 * wsum useW ts (n : Int) := by
+    intro n hn
+    obtain ⟨hk, hr⟩ := (mem_candidates _ _ _).mp hn
+    have hex := (counted_iff useW ts _).mp hk
+    have hr' : reaches m (freq (countAll useW ts) (n : Int)) := hr
+    obtain ⟨t, ht, hs⟩ := hex
+    obtain ⟨_, h, hgh, hmh, hcl⟩ := hts t ht
+    have hsubM : bits n ⊆ bits (Hier.mask (starOf members)) := by rw [← hmh]; exact clades_sub h n ((hcl n).mp hs)
+    have hsub : n &&& all = n := (and_eq_left_iff _ _).mpr (hsubM.trans hsubAll)
+    exact ⟨⟨t, ht, hs⟩, hr', hsub, (and_eq_left_iff _ _).mpr hsubM, half_of_freq useW ts _ hw ⟨t, ht, hs⟩ (reaches_gt_half m _ hm hr')⟩
+  -- the list handed to the greedy insertion
+  have hss : ∀ s, s ∈ ((candidates (countAll useW ts) (some m)).map Int.toNat).filterMap (C01.prep all true) ↔
+      ((s : Int) ∈ candidates (countAll useW ts) (some m) ∧ s ≠ all ∧ (s - 1) &&& s ≠ 0) := by
+    intro s
+    simp only [List.mem_filterMap, List.mem_map]
+    constructor
+    · rintro ⟨n, ⟨c, hc, rfl⟩, hp⟩
+      by_cases hneg : c < 0
+      · rw [Int.toNat_of_nonpos (le_of_lt hneg), prep_zero] at hp; cases hp
+      · have hc' : ((c.toNat : Nat) : Int) = c := Int.toNat_of_nonneg (not_lt.mp hneg)
+        have hcn : ((c.toNat : Nat) : Int) ∈ candidates (countAll useW ts) (some m) := by rw [hc']; exact hc
+        obtain ⟨_, _, hsub, _, _⟩ := hcand c.toNat hcn
+        rw [prep_rooted_of_sub all c.toNat hsub] at hp
+        split at hp
+        · rename_i hcond
+          simp only [Option.some.injEq] at hp
+          subst hp; exact ⟨hcn, hcond⟩
+        · cases hp
+    · rintro ⟨hc, h1, h2⟩
+      obtain ⟨_, _, hsub, _, _⟩ := hcand s hc
+      refine ⟨s, ⟨(s : Int), hc, by simp⟩, ?_⟩
+      rw [prep_rooted_of_sub all s hsub]; simp [h1, h2]
+  have hbuild := C01.build_spec (starOf members)
+    (((candidates (countAll useW ts) (some m)).map Int.toNat).filterMap (C01.prep all true)) hg
+    (by
+      intro s hs
+      obtain ⟨hc, _, h2⟩ := (hss s).mp hs
+      obtain ⟨_, _, _, hsub', _⟩ := hcand s hc
+      refine ⟨?_, hsub', compat_star members s hsub'⟩
+      intro h0; subst h0; simp at h2)
+    (by
+      intro s hs b hb
+      obtain ⟨hcs, _, _⟩ := (hss s).mp hs
+      obtain ⟨hcb, _, _⟩ := (hss b).mp hb
+      obtain ⟨_, _, _, _, hhs⟩ := hcand s hcs
+      obtain ⟨_, _, _, _, hhb⟩ := hcand b hcb
+      exact majority_pairwise_laminar useW ts s b (fun t ht => (hts t ht).1) hw
+        (fun t ht => by
+          obtain ⟨_, h, hgh, _, hcl⟩ := hts t ht
+          exact ⟨h, hgh, fun x hx => (hcl x).mp hx⟩) hhs hhb)
+  unfold consensus C01.build
+  refine ⟨hbuild.1, hbuild.2.1, ?_⟩
+  intro x
+  rw [hbuild.2.2 x, hss x]
+  constructor
+  · rintro (h | ⟨hc, _, _⟩)
+    · exact Or.inl h
+    · obtain ⟨hex, hr, _, _, _⟩ := hcand x hc
+      exact Or.inr ⟨hr, hex⟩
+  · rintro (h | ⟨hr, t, ht, hs⟩)
+    · exact Or.inl h
+    · have hc : (x : Int) ∈ candidates (countAll useW ts) (some m) :=
+        (mem_candidates _ _ _).mpr ⟨(counted_iff useW ts _).mpr ⟨t, ht, hs⟩, hr⟩
+      obtain ⟨_, h, hgh, hmh, hcl⟩ := hts t ht
+      have hxc : x ∈ clades h := (hcl x).mp hs
+      have hxsub : bits x ⊆ bits (Hier.mask (starOf members)) := by rw [← hmh]; exact clades_sub h x hxc
+      by_cases hxM : x = Hier.mask (starOf members)
+      · left; rw [hxM]; exact mask_mem_clades _
+      · have h1 : x ≠ all := by
+          intro e; apply hxM
+          apply bits_inj
+          exact Set.Subset.antisymm hxsub (by rw [e]; exact hsubAll)
+        by_cases h2 : (x - 1) &&& x = 0
+        · left
+          have hx0 : x ≠ 0 := by
+            by_cases hm0 : Hier.mask h = 0
+            · exfalso; apply hxM; rw [← hmh, hm0]
+              apply bits_inj; rw [bits_zero]
+              rw [← hmh, hm0, bits_zero] at hxsub
+              exact Set.subset_empty_iff.mp hxsub
+            · exact clades_ne_zero h hgh hm0 x hxc
+          obtain ⟨k, rfl⟩ := single_bit x hx0 h2
+          have hk : k ∈ bits (Hier.mask (starOf members)) := hxsub (by rw [bits_shift]; rfl)
+          rw [mask_star_bits] at hk
+          exact (mem_clades_star members _).mpr (Or.inr ⟨k, hk, rfl⟩)
+        · exact Or.inr ⟨hc, h1, h2⟩
+
+
+end DendroModel.C05
+
+namespace DendroModel.C05
+open DendroModel DendroModel.Hier DendroModel.C05.Aux
+
+/-- **End to end, as the driver computes it (rooted input, namespaces with removed members included).**  `ws` are the parsed
+    (weight, tree) pairs of well-formed rooted trees over the namespace's live members; the records are built by `treeRecOf`, counted by
+    `countAll`, and the consensus is built with the rooting flag the driver itself derives (`consensusRooted`) and with any `all`
+    that contains the members' bits.  For a threshold above one half (not within 1e-7 of one) and non-negative weights, the clades of
+    the consensus are exactly the star's plus the splits that occur in some input tree with frequency ≥ the threshold.
+    Assumed, not derived from `parseTree`: `Good (T.toH t)` (the leaves of each tree carry distinct taxa). -/
+theorem driver_majority_exact (useW : Bool) (ws : List (Option Rat × T)) (m : Rat) (all : Nat) (members : List Nat)
+    (hne : ws ≠ []) (hm : 1 / 2 < m) (hm1 : ¬ C04.absR (m - 1) ≤ (1 : Rat) / 10000000)
+    (hw : ∀ p ∈ ws, ∀ q, p.1 = some q → 0 ≤ q)
+    (hg : Good (starOf members)) (hM : Hier.mask (starOf members) ≠ 0) (hsubAll : bits (Hier.mask (starOf members)) ⊆ bits all)
+    (htrees : ∀ p ∈ ws, Good (T.toH p.2) ∧ T.mask p.2 = Hier.mask (starOf members)) :
+    ∀ x, x ∈ clades (consensus (countAll useW (ws.map (fun p => treeRecOf (some true) p.1 p.2))) (some m) all members
+                      (consensusRooted (countAll useW (ws.map (fun p => treeRecOf (some true) p.1 p.2)))))
+        ↔ x ∈ clades (starOf members)
+          ∨ (freq (countAll useW (ws.map (fun p => treeRecOf (some true) p.1 p.2))) (x : Int) ≥ m
+              ∧ ∃ t ∈ ws.map (fun p => treeRecOf (some true) p.1 p.2), (x : Int) ∈ t.splits) := by
+  have hroot : consensusRooted (countAll useW (ws.map (fun p => treeRecOf (some true) p.1 p.2))) = true := by
+    rw [consensus_rooting_spec]
+    refine ⟨by simpa using hne, ?_⟩
+    intro t ht
+    obtain ⟨p, _, rfl⟩ := List.mem_map.mp ht
+    exact (treeRecOf_rooted_clades p.1 p.2).1
+  have hwt : ∀ t ∈ ws.map (fun p => treeRecOf (some true) p.1 p.2), 0 ≤ wt useW t := by
+    intro t ht
+    obtain ⟨p, hp, rfl⟩ := List.mem_map.mp ht
+    unfold wt
+    rw [(treeRecOf_rooted_clades p.1 p.2).2.1]
+    cases hq : p.1 with
+    | none => simp
+    | some q => cases useW <;> simp [hw p hp q hq]
+  have hts := treeRecOf_rooted_hts (Hier.mask (starOf members)) ws htrees hM
+  intro x
+  rw [hroot, (majority_consensus_reaches_ns useW _ m all members hm hwt hg hsubAll hts).2.2 x, reaches_iff_ge m _ hm1]
+
+/-- non-vacuity of `driver_majority_exact` / `majority_consensus_reaches_ns`: the namespace {0,1,2} with accession count 4
+    (`all = 15`, bit 3 removed) and the rooted tree (0,(1,2)) -/
+example : ([(none, exT)] : List (Option Rat × T)) ≠ []
+    ∧ Good (starOf [0, 1, 2]) ∧ Hier.mask (starOf [0, 1, 2]) ≠ 0 ∧ bits (Hier.mask (starOf [0, 1, 2])) ⊆ bits 15
+    ∧ ∀ p ∈ ([(none, exT)] : List (Option Rat × T)), Good (T.toH p.2) ∧ T.mask p.2 = Hier.mask (starOf [0, 1, 2]) := by
+  refine ⟨by simp, exStar.1, by rw [exStar.2]; decide, ?_, ?_⟩
+  · rw [exStar.2]; intro i hi
+    have : (7 : Nat) &&& 15 = 7 := by decide
+    exact (and_eq_left_iff 7 15).mp this hi
+  · intro p hp; simp at hp; subst hp
+    exact ⟨by simp [exT, T.toH, T.toHL, Good, GoodL, Hier.mask, Hier.maskL],
+      by rw [exStar.2]; simp [exT, T.mask, T.maskL]⟩
+
 end DendroModel.C05
